@@ -85,6 +85,7 @@ package history
 //@   ensures[C16.top-count-exact] forall a int :: 0 <= a && a < len(result) ==> result[a].Count == occ(sh, result[a].Query, len(sh.Entries))
 //@   ensures[C16.top-distinct] forall a, b int :: 0 <= a && a < b && b < len(result) ==> result[a].Query != result[b].Query
 //@   ensures[C16.top-complete] len(result) < (limit > 0 ? limit : 10) ==> (forall k int :: 0 <= k && k < len(sh.Entries) ==> (exists a int :: 0 <= a && a < len(result) && result[a].Query == sh.Entries[k].Query))
+//@   hint[C16.top-complete-keys] Slice forall k int :: 0 <= k && k < len(sh.Entries) ==> (sh.Entries[k].Query in frequency)
 //@   hint[C16.top-complete] Slice forall k int :: 0 <= k && k < len(sh.Entries) ==> (exists a int :: 0 <= a && a < len(queryFreqs) && queryFreqs[a].Query == sh.Entries[k].Query)
 //@   ensures[C16.top-ordered] forall a, b int :: 0 <= a && a < b && b < len(result) ==> result[a].Count >= result[b].Count
 //@ loop 1
